@@ -401,6 +401,14 @@ func clip(s string, n int) string {
 // checkRenderer verifies that f(number, digits) returns exactly `digits` characters: the decimal
 // digits of number, most significant first, left-padded with '0'.
 func checkRenderer(c *Check, w *World, tb *TB, iv *IV, rule string, f *ssa.Function) {
+	checkRendererSeen(c, w, tb, iv, rule, f, map[*ssa.Function]bool{})
+}
+
+func checkRendererSeen(c *Check, w *World, tb *TB, iv *IV, rule string, f *ssa.Function, seen map[*ssa.Function]bool) {
+	if seen[f] {
+		return
+	}
+	seen[f] = true
 	fn := FuncName(f)
 	pos := w.Pos(f.Pos())
 	if len(f.Params) != 2 {
@@ -420,6 +428,14 @@ func checkRenderer(c *Check, w *World, tb *TB, iv *IV, rule string, f *ssa.Funct
 		return
 	}
 	rt := res[0]
+	// pure delegation: return g(number, digits) with g another module renderer
+	if cl, ok := rt.Val.(*ssa.Call); ok && rt.Op == "call" && len(rt.Args) == 2 && cl.Call.StaticCallee() != nil && w.InModule(cl.Call.StaticCallee()) &&
+		rt.Args[0].String() == tb.Of(numP).String() && rt.Args[1].String() == digT.String() && len(seen) < 4 {
+		g := cl.Call.StaticCallee()
+		c.OK(rule, fn, "length", "delegates to "+FuncName(g)+"(number, digits), which is checked as the renderer", pos)
+		checkRendererSeen(c, w, tb, iv, rule, g, seen)
+		return
+	}
 	for rt.Op == "conv" || (rt.Op == "call" && len(rt.Args) == 1) {
 		if rt.Op == "call" {
 			// in-module view helper (unsafeString): must be the identity on content
@@ -446,6 +462,74 @@ func checkRenderer(c *Check, w *World, tb *TB, iv *IV, rule string, f *ssa.Funct
 	if buf == nil {
 		return
 	}
+	// the digits may be written by one module helper handed the whole buffer, the digits and the number
+	D0 := DerivedSet([]ssa.Value{buf})
+	direct := 0
+	var helpers []*ssa.Call
+	EachInstr(f, func(in ssa.Instruction) {
+		if st, ok := in.(*ssa.Store); ok && D0[st.Addr] {
+			direct++
+		}
+		if cl, ok := in.(*ssa.Call); ok && cl.Call.StaticCallee() != nil && w.InModule(cl.Call.StaticCallee()) {
+			for i, a := range cl.Call.Args {
+				if D0[a] && tb.WritesParam != nil && tb.WritesParam(cl.Call.StaticCallee(), i) {
+					helpers = append(helpers, cl)
+				}
+			}
+		}
+	})
+	if len(helpers) > 0 {
+		if direct > 0 || len(helpers) != 1 {
+			c.Unk(rule, fn, "buffer-store", "the digit buffer is written both directly and by helpers, or by several helpers", pos)
+			return
+		}
+		cl := helpers[0]
+		g := cl.Call.StaticCallee()
+		var gbuf, gnum, gdig *ssa.Parameter
+		for i, a := range cl.Call.Args {
+			at := tb.Of(a)
+			switch {
+			case D0[a]:
+				whole := a == buf
+				if at.Op == "slice" && at.Args[1].Op == "none" && at.Args[2].Op == "none" {
+					whole = true
+				}
+				if whole && gbuf == nil {
+					gbuf = g.Params[i]
+				} else {
+					gbuf = nil
+					c.Unk(rule, fn, "buffer-store", "the helper is handed a part of the digit buffer: "+clip(at.String(), 100), w.InstrPos(cl))
+					return
+				}
+			case at.String() == digT.String():
+				gdig = g.Params[i]
+			case at.String() == tb.Of(numP).String():
+				gnum = g.Params[i]
+			}
+		}
+		if gbuf == nil || gnum == nil || gdig == nil || g.Signature.Results().Len() != 0 {
+			c.Unk(rule, fn, "buffer-store", "the digit-writing helper "+FuncName(g)+" is not handed (buffer, digits, number)", w.InstrPos(cl))
+			return
+		}
+		// the helper runs on every path to the return of the buffer
+		okDom := true
+		for _, r := range Returns(f) {
+			if !(cl.Block() == r.Block() || cl.Block().Dominates(r.Block())) {
+				okDom = false
+			}
+		}
+		c.Decide(okDom, rule, fn, "buffer-store", "the digits are written by "+FuncName(g)+"(buffer, digits, number) on every path", "the digit-writing helper does not run on every path to the result", w.InstrPos(cl))
+		checkFill(c, w, tb, rule, g, gbuf, tb.Of(gnum), tb.Of(gdig))
+		return
+	}
+	checkFill(c, w, tb, rule, f, buf, tb.Of(numP), digT)
+}
+
+// checkFill: inside f, buf[digits-1 … 0] receive the decimal digits of num, least significant last, every
+// position once, before f returns.
+func checkFill(c *Check, w *World, tb *TB, rule string, f *ssa.Function, buf ssa.Value, numT, digT *Term) {
+	fn := FuncName(f)
+	pos := w.Pos(f.Pos())
 	// 2. stores into the buffer
 	D := DerivedSet([]ssa.Value{buf})
 	type bstore struct {
@@ -491,7 +575,7 @@ func checkRenderer(c *Check, w *World, tb *TB, iv *IV, rule string, f *ssa.Funct
 			if a.IsConst() && a.Sym == "48" && b.Op == "bin" && b.Sym == "%" && b.Args[1].IsConst() && b.Args[1].Sym == "10" {
 				// the dividend must be the running number: phi(number, x/10)
 				x := b.Args[0]
-				if isDecimalRunner(x, tb.Of(numP)) {
+				if isDecimalRunner(x, numT) {
 					good = true
 				}
 			}
